@@ -962,14 +962,19 @@ func (p *parser) validateStructAlias(aliasTokens []token.Token, fields []*ast.Va
 		}
 	}
 
-	for typ, wasUnified := range genericUnifiedMap {
-		if !wasUnified {
-			err := ddperror.New(ddperror.SEM_UNABLE_TO_UNIFY_FIELD_TYPES, ddperror.LEVEL_ERROR,
-				token.NewRange(&aliasTokens[len(aliasTokens)-1], &aliasTokens[len(aliasTokens)-1]),
-				fmt.Sprintf("Der generische Typ %s konnte nicht unifiziert werden", typ),
-				p.module.FileName,
-			)
-			return &err, nil
+	// report the first generic type that could not be unified
+	// in the order of the fields (and not in the random order of the map)
+	for _, v := range fields {
+		genericTypes, _ := ddptypes.CastDeeplyNestedGenerics(v.Type)
+		for _, typ := range genericTypes {
+			if !genericUnifiedMap[typ.Name] {
+				err := ddperror.New(ddperror.SEM_UNABLE_TO_UNIFY_FIELD_TYPES, ddperror.LEVEL_ERROR,
+					token.NewRange(&aliasTokens[len(aliasTokens)-1], &aliasTokens[len(aliasTokens)-1]),
+					fmt.Sprintf("Der generische Typ %s konnte nicht unifiziert werden", typ.Name),
+					p.module.FileName,
+				)
+				return &err, nil
+			}
 		}
 	}
 	return nil, args
